@@ -1,7 +1,7 @@
 (* C16 — lemmas about Model/Embedders.v. *)
 From Coq Require Import String.
 From Coq Require Import List Arith Bool Lia.
-From PF Require Import Lib.ListX Lib.Chunks Proofs.ChunksFacts Proofs.ListXFacts Model.Embedders.
+From PF Require Import Lib.ListX Lib.Chunks Lib.PySlice Proofs.ChunksFacts Proofs.ListXFacts Model.Embedders.
 Import ListNotations.
 
 (* ------------------------------------------------------------------ *)
@@ -15,24 +15,78 @@ Proof. intros. rewrite map_map. reflexivity. Qed.
 
 Definition valid_bs (bs : option nat) : Prop := match bs with None => True | Some k => 0 < k end.
 
+(* ------------------------------------------------------------------ *)
+(* the Python loop `for i in range(0, len(l), k): l[i:i+k]` yields the consecutive chunks *)
+
+Lemma ceil_div_step : forall n k, 0 < n -> 0 < k -> (n + k - 1) / k = S ((n - k + k - 1) / k).
+Proof.
+  intros n k Hn Hk. destruct (le_lt_dec n k) as [Hle|Hlt].
+  - replace (n - k) with 0 by lia. rewrite (Nat.div_small (0 + k - 1) k) by lia.
+    symmetry. apply Nat.div_unique with (r := n - 1); lia.
+  - replace (n + k - 1) with ((n - k + k - 1) + 1 * k) by lia.
+    rewrite Nat.div_add by lia. lia.
+Qed.
+
+Lemma count_up_0 : forall n k, 0 < k -> count_up 0 n k = (n + k - 1) / k.
+Proof.
+  intros n k Hk. unfold count_up. destruct (0 <? n) eqn:E.
+  - rewrite Nat.sub_0_r. reflexivity.
+  - apply Nat.ltb_ge in E. replace n with 0 by lia. symmetry. apply Nat.div_small. lia.
+Qed.
+
+Lemma batch_slices_fuel : forall {A} fuel k (l : list A), 0 < k -> length l <= fuel ->
+  chunks_fuel fuel k l =
+  map (fun j => tslice l (j * k) (j * k + k)) (seq 0 ((length l + k - 1) / k)).
+Proof.
+  intros A fuel k. induction fuel as [|f IH]; intros l Hk Hl.
+  - destruct l; [|simpl in Hl; lia]. simpl. rewrite Nat.div_small by lia. reflexivity.
+  - destruct l as [|x r].
+    + simpl. rewrite Nat.div_small by lia. reflexivity.
+    + cbn [chunks_fuel]. rewrite (ceil_div_step (length (x :: r)) k) by (simpl; lia).
+      cbn [seq]. rewrite <- seq_shift. cbn [map]. rewrite map_map. f_equal.
+      * unfold tslice. simpl. rewrite Nat.sub_0_r. reflexivity.
+      * rewrite IH by (try rewrite skipn_length; cbn [length] in *; lia).
+        rewrite skipn_length. apply map_ext. intro j. unfold tslice.
+        rewrite skipn_skipn'.
+        replace (S j * k) with (k + j * k) by (simpl; lia).
+        replace (j * k + k - j * k) with (k + j * k + k - (k + j * k)) by lia. reflexivity.
+Qed.
+
+Theorem batch_slices_chunks : forall {A} k (l : list A), 0 < k -> batch_slices k l = chunks k l.
+Proof.
+  intros A k l Hk. unfold batch_slices, chunks, range_up. rewrite count_up_0 by exact Hk.
+  rewrite (batch_slices_fuel (length l) k l Hk (le_n _)). rewrite map_map. apply map_ext. intro j.
+  reflexivity.
+Qed.
+
+(* batch_size = 0: the loop makes no call at all (Python: ValueError from range()) *)
+Lemma batch_slices_zero : forall {A} (l : list A), batch_slices 0 l = [].
+Proof.
+  intros A l. unfold batch_slices, range_up, count_up. destruct (0 <? length l); [|reflexivity].
+  reflexivity.
+Qed.
+
+Lemma arg_lists_chunks : forall k cells, 0 < k -> arg_lists (Some k) cells = chunks k (ser_list cells).
+Proof. intros. simpl. apply batch_slices_chunks. assumption. Qed.
+
 Lemma arg_lists_concat : forall bs cells, valid_bs bs -> concat (arg_lists bs cells) = ser_list cells.
 Proof.
-  intros [k|] cells H; simpl in *.
-  - apply chunks_concat; exact H.
-  - apply app_nil_r.
+  intros [k|] cells H.
+  - rewrite arg_lists_chunks by exact H. apply chunks_concat; exact H.
+  - simpl. apply app_nil_r.
 Qed.
 
 Lemma arg_lists_sizes : forall k cells, 0 < k ->
   Forall (fun a => 0 < length a <= k) (arg_lists (Some k) cells).
-Proof. intros. simpl. apply chunks_sizes; assumption. Qed.
+Proof. intros. rewrite arg_lists_chunks by assumption. apply chunks_sizes; assumption. Qed.
 
 Lemma arg_lists_full : forall k cells cs c, 0 < k ->
   arg_lists (Some k) cells = cs ++ [c] -> Forall (fun a => length a = k) cs.
-Proof. intros k cells cs c Hk E. simpl in E. eapply chunks_all_but_last_full; eauto. Qed.
+Proof. intros k cells cs c Hk E. rewrite arg_lists_chunks in E by exact Hk. eapply chunks_all_but_last_full; eauto. Qed.
 
 Lemma arg_lists_count : forall k cells, 0 < k ->
   length (arg_lists (Some k) cells) = (length cells + k - 1) / k.
-Proof. intros. simpl. rewrite chunks_count by assumption. unfold ser_list. rewrite map_length. reflexivity. Qed.
+Proof. intros. rewrite arg_lists_chunks by assumption. rewrite chunks_count by assumption. unfold ser_list. rewrite map_length. reflexivity. Qed.
 
 Lemma chunks_nonempty : forall {A} k (l : list A), 0 < k -> l <> [] ->
   exists c cs, chunks k l = c :: cs /\ c <> [].
@@ -47,8 +101,8 @@ Qed.
 Lemma arg_lists_nonempty : forall bs cells, valid_bs bs -> cells <> [] ->
   exists a r, arg_lists bs cells = a :: r /\ a <> [].
 Proof.
-  intros [k|] cells Hv Hc; simpl.
-  - apply chunks_nonempty; auto. unfold ser_list. destruct cells; [congruence | discriminate].
+  intros [k|] cells Hv Hc.
+  - rewrite arg_lists_chunks by exact Hv. apply chunks_nonempty; auto. unfold ser_list. destruct cells; [congruence | discriminate].
   - exists (ser_list cells), []. split; [reflexivity|]. unfold ser_list. destruct cells; [congruence | discriminate].
 Qed.
 
